@@ -126,10 +126,10 @@ def props_compile(prop_file, timeout=900):
 
 
 class ModelRunner:
-    """line-oriented access to the extracted OCaml model (extract/bin/modelrun)"""
+    """line-oriented access to an extracted OCaml model (extract/bin/<name>)"""
 
-    def __init__(self):
-        self.exe = os.path.join(VERIF, 'extract', 'bin', 'modelrun')
+    def __init__(self, name):
+        self.exe = os.path.join(VERIF, 'extract', 'bin', name)
 
     def run(self, lines, timeout=900):
         p = subprocess.run([self.exe], input=('\n'.join(lines) + '\n').encode(), stdout=subprocess.PIPE,
@@ -139,24 +139,37 @@ class ModelRunner:
         return p.stdout.decode().split('\n')[:-1]
 
 
-def build_extraction(timeout=900):
-    """coq/Extract/Extraction.v -> extract/ml/*.ml -> extract/bin/modelrun"""
-    ok, log = coq_make(['Extract/Extraction.vo'], timeout)
-    if not ok:
-        return False, log
+def build_extraction(name, timeout=900):
+    """coq/Extract/<Name>.v -> extract/ml/<name>.ml ; + extract/<name>_run.ml -> extract/bin/<name>"""
     ml = os.path.join(VERIF, 'extract', 'ml')
     bind = os.path.join(VERIF, 'extract', 'bin')
+    os.makedirs(ml, exist_ok=True)
     os.makedirs(bind, exist_ok=True)
-    exe = os.path.join(bind, 'modelrun')
-    srcs = [os.path.join(ml, 'model.mli'), os.path.join(ml, 'model.ml'), os.path.join(VERIF, 'extract', 'modelrun.ml')]
+    if not os.path.exists(os.path.join(ml, name + '.ml')):
+        for ext in ('.vo', '.vok', '.vos', '.glob'):
+            try:
+                os.remove(os.path.join(COQ, 'Extract', name.upper() + ext))
+            except OSError:
+                pass
+    ok, log = coq_make(['Extract/%s.vo' % name.upper()], timeout)
+    if not ok:
+        return False, log
+    exe = os.path.join(bind, name)
+    srcs = [os.path.join(ml, name + '.mli'), os.path.join(ml, name + '.ml'), os.path.join(VERIF, 'extract', name + '_run.ml')]
     newest = max(os.path.getmtime(s) for s in srcs)
     if os.path.exists(exe) and os.path.getmtime(exe) >= newest:
         return True, log
-    rc, out = sh(['ocamlfind', 'ocamlopt', '-O2', '-I', ml, '-package', 'str', '-linkpkg'] + srcs + ['-o', exe],
-                 cwd=ml, timeout=timeout)
+    # compile in a private directory so that concurrent builds of other models do not interfere
+    bdir = os.path.join(ml, '_b_' + name)
+    os.makedirs(bdir, exist_ok=True)
+    for s_ in srcs:
+        sh(['cp', s_, bdir])
+    loc = [os.path.join(bdir, os.path.basename(s_)) for s_ in srcs]
+    rc, out = sh(['ocamlfind', 'ocamlopt', '-O2', '-w', '-a', '-I', bdir, '-package', 'str', '-linkpkg'] + loc + ['-o', exe],
+                 cwd=bdir, timeout=timeout)
     if rc:
-        rc, out = sh(['ocamlfind', 'ocamlopt', '-I', ml, '-package', 'str', '-linkpkg'] + srcs + ['-o', exe],
-                     cwd=ml, timeout=timeout)
+        rc, out = sh(['ocamlfind', 'ocamlopt', '-w', '-a', '-I', bdir, '-package', 'str', '-linkpkg'] + loc + ['-o', exe],
+                     cwd=bdir, timeout=timeout)
     return rc == 0, log + out
 
 
@@ -235,13 +248,14 @@ class Check:
             self.checker_cmd = 'make -C coq %s && coqc -Q coq NV coq/Props/%s.v' % (' '.join(targets), props)
         return not self.broken
 
-    def model(self):
+    def model(self, name=None):
+        name = name or self.pid.lower()
         with BuildLock():
-            ok, log = build_extraction()
+            ok, log = build_extraction(name)
         if not ok:
-            self.broken.append('extraction/modelrun build failed: ' + log[-300:])
+            self.broken.append('extraction/model runner build failed (%s): %s' % (name, log[-300:]))
             return None
-        return ModelRunner()
+        return ModelRunner(name)
 
     # ---- coverage --------------------------------------------------------
     def case(self, canon, nontrivial, sample=None):
